@@ -689,6 +689,7 @@ class Checker:
                       transitions=max(1, sum((r.get('stats') or {}).get('vccs', 0) for r in decided)),
                       programs=len(decided), disagreements_checked=len(viol) + len(unconfirmed),
                       evaluations=len(self.rows), distinct_nontrivial=len(nontrivial),
+                      store_note='queries already decided on the identical tree (sha256 over /repo/include, harness/, engine/, query definition) are taken from .work/store and marked reused; their figures are those of the run that decided them',
                       rule='one evaluation = one CBMC query (harness entry x configuration x state class) over symbolic state words, element values, positions, counts; non-trivial = decided, every reach marker reachable (vacuity witness), at least one assertion of this property discharged',
                       samples=samples,
                       queries_decided=len(decided), queries_inconclusive=len(incon), queries_reused_from_store=sum(1 for r in self.rows if r.get('reused')),
@@ -700,7 +701,7 @@ class Checker:
                       symex_seconds=round(sum((r.get('stats') or {}).get('symex_s', 0) for r in self.rows), 1),
                       cpu_seconds_queries=round(sum(r.get('wall', 0) or 0 for r in self.rows), 1),
                       peak_rss_mb=max([r.get('rss_mb') or 0 for r in self.rows] or [0]),
-                      traces_validated_against_impl=sum((r.get('validation') or {}).get('agree', 0) for r in self.rows if not r.get('reused')),
+                      traces_validated_against_impl=sum((r.get('validation') or {}).get('agree', 0) for r in self.rows),   # reused queries keep the counts of the run that decided them (same tree hash)
                       translator_validation=dict(streams=sum((r.get('validation') or {}).get('streams', 0) for r in self.rows),
                                                  mismatches=sum((r.get('validation') or {}).get('n_mismatch', 0) for r in self.rows)),
                       queries=[dict(name=r['name'], verdict=r.get('verdict'), wall_s=r.get('wall'), rss_mb=r.get('rss_mb'), reused=r.get('reused', False),
